@@ -1,4 +1,4 @@
-from vf2.spec import *
+from vf.spec import *
 def build(reg):
     Elem_ = reg.type("Elem", Elem("Elem"))
     m = reg.module("gcmpy/tools/draw_set.py")
